@@ -21,7 +21,8 @@ RULE = ('Exhaustive: every one- and two-field single-record table whose fields a
         'Oracle: representable := the reference writer/reader pair round-trips the table; for representable tables real writer -> real reader == table '
         'with no warnings (ragged: exactly the field-count warning), real writer -> reference reader and reference writer (minimal and always-quoting) -> '
         'real reader == table; quoted_rfc normalises CR/CRLF in fields to LF. For simple/whitespace output with the delimiter inside a field, or any None: '
-        'the corresponding warning must be present. Non-trivial = a field containing a quote, a delimiter character, a leading/trailing space or a line break.')
+        'the corresponding warning must be present. Non-trivial = a field containing a quote, a delimiter character, a leading/trailing space or a line break.'
+        ' Later additions: simple-policy enumeration over delimiter characters for multi-character delimiters (incl. TAB spelled as text), all 256 latin-1 code points, first line through set_header(), word cells (None, nan, null, ...), fields with up to 16000 line breaks, 140 kB fields, 3000-field records, zero-field records under the whitespace policy.')
 ASSUMPTIONS = ['multi-character delimiters of the quoted policies contain neither a space nor a double quote', 'the delimiter is never the double quote; whitespace policy uses the space delimiter']
 
 SINGLE = [',', ';', '\t', '|', ' ']
